@@ -3,8 +3,6 @@ package bondmachine
 import (
 	"strconv"
 	"strings"
-
-	"github.com/BondMachineHQ/BondMachine/pkg/procbuilder"
 )
 
 // C05: the machine the real basm front-end emitted for a source (run natively
@@ -198,81 +196,8 @@ func (r *zzRef) exec(in zzIns, inputs []uint64) {
 	r.pc = next
 }
 
-func zzC05Machine(rsize int, desc string) *procbuilder.Machine {
-	f := strings.Split(desc, "|")
-	p := strings.Split(f[0], ":")
-	at := func(k int) uint8 { v, _ := strconv.Atoi(p[k]); return uint8(v) }
-	m := new(procbuilder.Machine)
-	m.Rsize = uint8(rsize)
-	m.R, m.N, m.M, m.L, m.O, m.WordSize = at(0), at(1), at(2), at(3), at(4), at(5)
-	m.Modes = []string{"ha"}
-	// the opcode list in the order the front-end emitted it
-	for _, name := range strings.Split(f[1], ",") {
-		procbuilder.EventuallyCreateInstruction(name)
-		found := false
-		for _, op := range procbuilder.Allopcodes {
-			if op.Op_get_name() == name {
-				m.Op = append(m.Op, op)
-				found = true
-				break
-			}
-		}
-		if !found {
-			zzUnsupported("emitted opcode " + name + " does not exist")
-		}
-	}
-	m.Program.Slocs = strings.Split(f[2], ",")
-	return m
-}
-
-func zzU64(v interface{}) uint64 {
-	switch x := v.(type) {
-	case uint8:
-		return uint64(x)
-	case uint16:
-		return uint64(x)
-	case uint32:
-		return uint64(x)
-	case uint64:
-		return x
-	}
-	return 0
-}
-
 func zzC05(rsize int, cps string, ins string, outs string, links string, src string, T int) {
-	bm := new(Bondmachine)
-	bm.Rsize = uint8(rsize)
-	for _, d := range strings.Split(cps, ";") {
-		bm.Domains = append(bm.Domains, zzC05Machine(rsize, d))
-	}
-	bm.Init()
-	for i := range bm.Domains {
-		bm.Add_processor(i)
-	}
-	inl, outl := strings.Split(ins, ","), strings.Split(outs, ",")
-	nin, nout := 0, 0
-	for _, n := range outl {
-		if n != "" && n[0] == 'i' {
-			nin++
-		}
-	}
-	for _, n := range inl {
-		if n != "" && n[0] == 'o' {
-			nout++
-		}
-	}
-	for k := 0; k < nin; k++ {
-		bm.Add_input()
-	}
-	for k := 0; k < nout; k++ {
-		bm.Add_output()
-	}
-	for idx, l := range strings.Fields(links) {
-		j, _ := strconv.Atoi(l)
-		if j >= 0 {
-			bm.Add_bond([]string{inl[idx], outl[j]})
-		}
-	}
+	bm, nin, nout := zzEmittedBM(rsize, cps, ins, outs, links)
 	vm := new(VM)
 	vm.Bmach = bm
 	vm.Init()
@@ -292,16 +217,7 @@ func zzC05(rsize int, cps string, ins string, outs string, links string, src str
 	}
 	for t := 0; t < T; t++ {
 		for k := range inputs {
-			switch rsize {
-			case 8:
-				vm.Inputs_regs[k] = uint8(inputs[k])
-			case 16:
-				vm.Inputs_regs[k] = uint16(inputs[k])
-			case 32:
-				vm.Inputs_regs[k] = uint32(inputs[k])
-			default:
-				vm.Inputs_regs[k] = inputs[k]
-			}
+			vm.Inputs_regs[k] = zzWordOf(rsize, inputs[k])
 			vm.InputsValid[k] = true
 		}
 		for k := range vm.OutputsRecv {
@@ -334,5 +250,207 @@ func zzDispatch(name string, args []string) {
 	switch name {
 	case "zzC05":
 		zzC05(atoi(args[0]), args[1], args[2], args[3], args[4], args[5], atoi(args[6]))
+	case "zzC05Multi":
+		zzC05Multi(atoi(args[0]), args[1], args[2], args[3], args[4], args[5], atoi(args[6]))
 	}
+}
+
+// ---- several CPs joined by handshaked links (straight-line programs, final-state comparison) ----
+
+type zzCP struct {
+	name string
+	ref  *zzRef
+	done bool
+}
+
+type zzEnd struct {
+	cp      string
+	index   int
+	isInput bool
+}
+
+// zzC05ParseMulti: sections by name, "%meta cpdef <cp> romcode: <section>, ..." and
+// "%meta ioatt <link> cp: <cp|bm>, index:N, type:input|output" (two per link)
+func zzC05ParseMulti(src string) (cps []*zzCP, links map[string][]zzEnd) {
+	sections := map[string]string{}
+	cur, body := "", ""
+	links = map[string][]zzEnd{}
+	var order []string
+	romcode := map[string]string{}
+	for _, raw := range strings.Split(src, "\n") {
+		line := strings.TrimSpace(raw)
+		f := strings.Fields(line)
+		if len(f) == 0 {
+			continue
+		}
+		switch {
+		case f[0] == "%section":
+			cur, body = f[1], ""
+			continue
+		case f[0] == "%endsection":
+			sections[cur] = body
+			cur = ""
+			continue
+		case f[0] == "%meta" && f[1] == "cpdef":
+			order = append(order, f[2])
+			for _, kv := range strings.Split(strings.Join(f[3:], ""), ",") {
+				p := strings.Split(kv, ":")
+				if p[0] == "romcode" {
+					romcode[f[2]] = p[1]
+				}
+			}
+			continue
+		case f[0] == "%meta" && f[1] == "ioatt":
+			var e zzEnd
+			for _, kv := range strings.Split(strings.Join(f[3:], ""), ",") {
+				p := strings.Split(kv, ":")
+				switch p[0] {
+				case "cp":
+					e.cp = p[1]
+				case "index":
+					e.index, _ = strconv.Atoi(p[1])
+				case "type":
+					e.isInput = p[1] == "input"
+				}
+			}
+			links[f[2]] = append(links[f[2]], e)
+			continue
+		}
+		if cur != "" {
+			body += raw + "\n"
+		}
+	}
+	for _, name := range order {
+		text := "%section x .romtext\n" + sections[romcode[name]] + "%endsection\n"
+		cps = append(cps, &zzCP{name: name, ref: &zzRef{src: zzC05Parse(text), ok: true}})
+	}
+	return
+}
+
+func zzC05Multi(rsize int, cpsDesc string, ins string, outs string, links string, src string, T int) {
+	bm, nin, nout := zzEmittedBM(rsize, cpsDesc, ins, outs, links)
+	vm := new(VM)
+	vm.Bmach = bm
+	vm.Init()
+	vm.Launch_processors(nil)
+	mask := uint64(1)<<uint(rsize) - 1
+	inputs := make([]uint64, nin)
+	for k := range inputs {
+		inputs[k] = zzNondetU64("input") & mask
+	}
+	for t := 0; t < T; t++ {
+		for k := range inputs {
+			vm.Inputs_regs[k] = zzWordOf(rsize, inputs[k])
+			vm.InputsValid[k] = true
+		}
+		for k := range vm.OutputsRecv {
+			vm.OutputsRecv[k] = vm.OutputsValid[k]
+		}
+		vm.Step(nil)
+	}
+	// reference: each CP interpreted on its own; a link carries the value its producer wrote to its consumer
+	declared, lk := zzC05ParseMulti(src)
+	zzAssert("one-processor-per-cpdef", len(declared) == len(vm.Processors))
+	// the emitted processors in their own order, matched to the source by name
+	var cps []*zzCP
+	for _, d := range strings.Split(cpsDesc, ";") {
+		f := strings.Split(d, "|")
+		for _, c := range declared {
+			if len(f) > 3 && c.name == f[3] {
+				cps = append(cps, c)
+			}
+		}
+	}
+	zzAssert("every-emitted-processor-is-a-declared-one", len(cps) == len(declared))
+	if len(cps) != len(vm.Processors) {
+		return
+	}
+	chanOf := func(cp string, index int, isInput bool) string { // link name of an endpoint
+		for name, ends := range lk {
+			for _, e := range ends {
+				if e.cp == cp && e.index == index && e.isInput == isInput {
+					return name
+				}
+			}
+		}
+		return ""
+	}
+	peerIsBM := func(link string) (bool, int) {
+		for _, e := range lk[link] {
+			if e.cp == "bm" {
+				return true, e.index
+			}
+		}
+		return false, 0
+	}
+	full := map[string]bool{}
+	val := map[string]uint64{}
+	extOut := make([]uint64, nout)
+	for i, c := range cps {
+		c.ref.mask = mask
+		c.ref.regs = make([]uint64, 1<<bm.Domains[i].R)
+		c.ref.out = make([]uint64, int(bm.Domains[i].M))
+		c.ref.pc = c.ref.src.labels[c.ref.src.entry]
+	}
+	for round := 0; round < 200; round++ {
+		progress := false
+		for _, c := range cps {
+			r := c.ref
+			if c.done || r.pc >= len(r.src.prog) {
+				continue
+			}
+			in := r.src.prog[r.pc]
+			switch in.op {
+			case "r2owa", "r2o":
+				reg, _ := zzIsReg(in.a[0])
+				l := chanOf(c.name, zzPortNo(in.a[1]), false)
+				if isbm, k := peerIsBM(l); isbm {
+					extOut[k] = r.regs[reg]
+				} else if full[l] {
+					continue // the consumer has not taken the previous value yet
+				} else {
+					full[l], val[l] = true, r.regs[reg]
+				}
+				r.pc++
+				progress = true
+			case "i2rw", "i2r":
+				reg, _ := zzIsReg(in.a[0])
+				l := chanOf(c.name, zzPortNo(in.a[1]), true)
+				if isbm, k := peerIsBM(l); isbm {
+					r.regs[reg] = inputs[k]
+				} else if !full[l] {
+					continue
+				} else {
+					r.regs[reg], full[l] = val[l], false
+				}
+				r.pc++
+				progress = true
+			case "j":
+				if r.target(in.a[0]) == r.pc {
+					c.done = true // parked
+				} else {
+					r.exec(in, nil)
+					progress = true
+				}
+			default:
+				r.exec(in, nil)
+				progress = true
+			}
+		}
+		if !progress {
+			break
+		}
+	}
+	for i, c := range cps {
+		zzAssert("source-inside-the-interpreted-subset", c.ref.ok)
+		zzAssert("source-program-finished", c.done)
+		P := vm.Processors[i]
+		for k := range P.Registers {
+			zzAssert("registers-equal-source-interpretation", zzU64(P.Registers[k]) == c.ref.regs[k])
+		}
+	}
+	for k := 0; k < nout; k++ {
+		zzAssert("external-output-equals-source-interpretation", zzU64(vm.Outputs_regs[k]) == extOut[k])
+	}
+	zzReach("end")
 }
